@@ -5,7 +5,8 @@
    universally quantified abstract state machines.  [tr s] is the trace newest-first,
    [trace s = rev (tr s)] is chronological. *)
 From Coq Require Import List ZArith Bool.
-From KV Require Import Model.Sasl Proofs.SaslProofs.
+From Coq Require Import NArith.
+From KV Require Import Model.Sasl Proofs.SaslProofs Proofs.SaslRawRead.
 Import ListNotations.
 Open Scope Z_scope.
 
@@ -83,6 +84,65 @@ Theorem C18_run_reachable :
 Proof. exact run_case_reachable. Qed.
 Print Assumptions C18_run_reachable.
 
+(* ---- the raw (handshake v0) response read ---- *)
+(* Transport path (protocol/saslauthenticate readResp): for EVERY announced length (any
+   int32, or any integer), every sequence of payload bytes that arrives and either ending,
+   the bytes allocated for the response are at most 10 x the payload bytes RECEIVED + 2560 —
+   never a function of the announced length — and no more is consumed than arrived or than
+   was announced.  [grow] is append's capacity choice, only assumed to lie between 1.25 x and
+   2 x the old capacity (runtime.growslice). *)
+Theorem C18_raw_read_alloc_bounded :
+  forall grow : N -> N,
+    (forall c, (512 <= c -> 5 * c <= 4 * grow c)%N) ->
+    (forall c, (512 <= c -> grow c <= 2 * c)%N) ->
+    forall announced avail e,
+      let r := transport_raw_read grow announced avail e in
+      (rr_alloc r <= 10 * rr_received r + 2560)%N /\
+      (rr_received r <= N.of_nat (length avail))%N /\
+      (0 <= announced -> Z.of_N (rr_received r) <= announced).
+Proof. exact transport_raw_read_bounded. Qed.
+Print Assumptions C18_raw_read_alloc_bounded.
+
+(* the instance the correspondence driver evaluates (growslice's formula) *)
+Theorem C18_raw_read_alloc_bounded_go :
+  forall announced avail e,
+    let r := raw_read Transport announced avail e in
+    (rr_alloc r <= 10 * rr_received r + 2560)%N /\
+    (rr_received r <= N.of_nat (length avail))%N /\
+    (0 <= announced -> Z.of_N (rr_received r) <= announced).
+Proof. exact raw_read_transport_bounded. Qed.
+Print Assumptions C18_raw_read_alloc_bounded_go.
+
+(* Conn path (conn.go saslAuthenticate, raw branch): NOT bounded by what arrives — it
+   allocates the announced length (an observation; the Conn is outside C20's scope). *)
+Theorem C18_conn_raw_read_allocates_announced :
+  forall announced avail e,
+    0 < announced -> rr_alloc (raw_read Dialer announced avail e) = Z.to_N announced.
+Proof. exact conn_raw_read_alloc. Qed.
+Print Assumptions C18_conn_raw_read_allocates_announced.
+
+(* both paths classify the read alike: payload / io.EOF / io.ErrUnexpectedEOF / protocol
+   error (negative length) / deadline *)
+Theorem C18_raw_read_outcome_same :
+  forall grow announced avail e,
+    rr_out (transport_raw_read grow announced avail e) = rr_out (conn_raw_read announced avail e).
+Proof. exact raw_read_outcome_same. Qed.
+Print Assumptions C18_raw_read_outcome_same.
+
+(* a raw read that yields no payload fails the dial: error, connection closed, never handed
+   out, no verdict, nothing can be written afterwards *)
+Theorem C18_raw_read_failure_closes :
+  forall mstate mstart mnext p a (s : state mstate) i ms out o,
+    reachable mstate mstart mnext p a s ->
+    ph s = PAuth Raw i ms out ->
+    (forall payload, o <> RROk payload) ->
+    exists s', step mstate mstart mnext p a s (LBroker (reaction_of_rr o)) = Some s'
+      /\ ph s' = PFailed /\ tr s' = EClose :: ERecv (reaction_of_rr o) :: tr s
+      /\ ~ In EHandOut (tr s') /\ ~ In EVerdict (tr s')
+      /\ (forall l, step mstate mstart mnext p a s' l = None).
+Proof. exact raw_read_failure_closes. Qed.
+Print Assumptions C18_raw_read_failure_closes.
+
 (* ---- non-vacuity ---- *)
 Definition adv01 (hs au : option Z) : advert := {| hs_max := hs; auth_max := au |}.
 
@@ -129,4 +189,17 @@ Example ex_corun :
   corun nat (shape_next MScram) nat (shape_srv MScram CredRight) 1 O (Some O) [1] = false /\
   corun nat (shape_next MScram) nat (shape_srv MScram CredWrongPassword) 5 O (Some O) [1] = false /\
   corun nat (shape_next MPlain) nat (shape_srv MPlain CredRight) 1 O (Some O) [1] = true.
+Proof. vm_compute. repeat split; reflexivity. Qed.
+
+(* raw reads: six bytes 3f ff ff ff 01 02 (announced 2^30 - 1 ... here 1073741823) allocate
+   512 bytes on the Transport path and the announced length on the Conn path; 600 arriving
+   bytes make ReadAll grow once *)
+Example ex_raw_read_huge_prefix :
+  raw_read Transport 1073741823 [1; 2] EndClose = mkRR RRUnexpectedEof 2 512 /\
+  raw_read Dialer 1073741823 [1; 2] EndClose = mkRR RRUnexpectedEof 2 1073741823 /\
+  raw_read Transport 1073741823 [] EndClose = mkRR RREof 0 512 /\
+  raw_read Transport 2 [7; 8; 9] EndSilence = mkRR (RROk [7; 8]) 2 512 /\
+  raw_read Transport 3 [7; 8] EndSilence = mkRR RRTimeout 2 512 /\
+  raw_read Transport (-1) [7; 8] EndClose = mkRR RRProtocol 0 0 /\
+  rr_alloc (raw_read Transport 600 (repeat 0 600) EndClose) = (512 + 832)%N.
 Proof. vm_compute. repeat split; reflexivity. Qed.
